@@ -197,8 +197,9 @@ def gen_subdaily(rng, k, quick=True):
     s = rng.randrange(0, 7)
     den = 2 ** s
     slots = [("v", rng.randrange(1, 2 ** 13)) for _ in range(n)]
-    elec = rng.random() < 0.3
-    if elec:
+    elec = rng.random() < 0.4
+    if elec or rng.random() < 0.4:
+        # readings of exactly 0: missing for electricity, genuine readings for gas (they must stay 0)
         for _ in range(rng.randrange(0, 4)):
             slots[rng.randrange(n)] = ("v", 0)
     classes = []
@@ -276,7 +277,12 @@ def gen_daily(rng, k):
         for i in range(a, min(nd - 1, a + rng.randrange(1, 5))):
             days[i] = [rng.choice(["nan", "absent"])]
     stamps = [tzdays.day_start(d0 + dt.timedelta(days=i), z) for i in range(nd)]
-    return {"kind": "daily", "zone": z, "stamps": stamps, "den": den, "slots": days, "elec": rng.random() < 0.3,
+    if rng.random() < 0.4:
+        for _ in range(rng.randrange(1, 3)):
+            i = rng.randrange(1, nd - 1)
+            if days[i][0] == "v":
+                days[i] = ["v", 0]      # a day of exactly 0 usage: missing for electricity, stays 0 for gas
+    return {"kind": "daily", "zone": z, "stamps": stamps, "den": den, "slots": days, "elec": rng.random() < 0.4,
             "on_dst": on_dst}
 
 
@@ -344,8 +350,8 @@ def gen_billing(rng, k):
         vals.append(None if r < 0.04 else rng.randrange(1, 2 ** 15))
     est = [rng.random() < 0.2 for _ in vals]
     elec = rng.random() < 0.3
-    if elec and rng.random() < 0.3 and vals:
-        vals[rng.randrange(len(vals))] = 0
+    if rng.random() < 0.3 and vals:
+        vals[rng.randrange(len(vals))] = 0          # a bill of exactly 0: unbilled for electricity, a bill for gas
     fmt = rng.choice(["daily-temp", "daily-temp", "hourly-temp", "bare", "from_series", "from_series"])
     last_value = rng.choice([None, None, rng.randrange(1, 2 ** 12)])     # value on the final row (convention: ignored)
     return {"kind": "billing", "zone": z, "stamps": stamps, "den": den, "vals": vals, "est": est, "elec": elec,
@@ -738,8 +744,11 @@ def midnight_dst(stamps, z):
 
 def raise_signature(path, obs, edge_stamps, z):
     known = obs[1] == "ValueError" and ("nonexistent time" in obs[2] or "Cannot infer dst time" in obs[2])
-    return {"path": path, "raised": obs[1],
-            "zone_class": "midnight-dst" if (known and midnight_dst(edge_stamps, z)) else "other"}
+    sig = {"path": path, "raised": obs[1],
+           "zone_class": "midnight-dst" if (known and midnight_dst(edge_stamps, z)) else "other"}
+    if obs[1] in ("ErrType", "TypeError") and "BusinessDay" in obs[2] and "Timedelta" in obs[2]:
+        sig["cause"] = "index-inferred-as-business-days"
+    return sig
 
 
 def cal_days(z, a, b):
@@ -1108,6 +1117,13 @@ def process_daily(run, st, cs):
     # the statement's granularity rule: a series whose typical (median) spacing is one day is daily
     gaps = sorted(b[0] - a[0] for a, b in zip(eff, eff[1:]))
     med = median(gaps) if gaps else 1440
+    # ... judged on the series as supplied as well (from_series decides on it whether the meter is billing-like)
+    eff_in = [(t, v) for t, v in rs if v is not None and not (cs["elec"] and v == 0)]
+    gaps_in = sorted(b[0] - a[0] for a, b in zip(eff_in, eff_in[1:]))
+    _, inf_in = parse_inferred(tz_index([t for t, _ in eff_in], z))
+    if gaps_in and median(gaps_in) != 1440 and inf_in is None:
+        run.dist("daily_median_spacing", "input not daily by the median rule")
+        return
     run.dist("daily_median_spacing", "1 day" if med == 1440 else ("<1 day" if med < 1440 else ">1 day"))
     if obs[0] == "days":
         if med != 1440 and inf_s is None:
@@ -1334,7 +1350,8 @@ def main():
         "sub-daily series: 15/30/60-minute slots on the local clock over 3-42 days around a DST change (75 %) in 18 zones "
         "(whole-hour DST, incl. midnight-DST zones and :30/:45 offsets), first slot at local midnight / another slot / exactly "
         "half a day +-1, gaps of 8 placement classes (inside a day, across midnight, whole days, exactly half a day +-1 slot, "
-        "after the first / before the last reading, leading, trailing) marked NaN or absent, electricity zeros; each series "
+        "after the first / before the last reading, leading, trailing) marked NaN or absent, readings of exactly 0 for "
+        "electricity (missing) and gas (genuine readings that must stay 0); each series "
         "goes through as_freq, downsample_and_clean_daily_data and one data-class constructor (df / from_series, baseline / "
         "reporting). daily series 4-60 days with NaN/absent days. billing calendars of 6-14 periods, 25-35 / 36-70 day cycles "
         "with off-cycle reads (1-24, 36-45, 71-80 days) and boundary lengths 24/25/35/36/70/71, regular cycles, periods of "
